@@ -1434,7 +1434,8 @@ def jnp_arange(*args, **kw):
         raise Finding(f"arange over the extent of a row axis ({args}) used where a small literal extent is required")
     if not all(isinstance(a, int) for a in args):
         return Sym('arange', *[(a if not isinstance(a, Poly) else a) for a in args])
-    return [int(i) for i in range(*args)]
+    vals = [int(i) for i in range(*args)]
+    return AT((len(vals),), np.array([Poly.const(v) for v in vals] or [], dtype=object).reshape((len(vals),)))
 
 
 def jnp_moveaxis(a, source, destination):
